@@ -90,6 +90,11 @@ const CATALOG: &[(&str, &str)] = &[
     ("const:runtime-array-size", "m_n1 := 3; m_arr : [m_n1]u8;"),
     ("const:runtime-comptime-arg", "m_n2 := 3; m_g1 :: (comptime x: i32) {}; m_g1(m_n2);"),
     ("const:runtime-type", "m_n3 := i32; m_v3 : m_n3 = 1;"),
+    ("const:uninitialised-local-array-size", "m_n4 : usize; m_a4 : [m_n4]i32;"),
+    ("const:uninitialised-local-comptime-arg", "m_n5 : i32; m_g5 :: (comptime x: i32) {}; m_g5(m_n5);"),
+    ("const:parameter-array-size", "m_f6 :: (n: usize) { a : [n]u8; };"),
+    ("const:call-result-array-size", "m_f7 :: () -> usize { 3 }; m_a7 : [m_f7()]u8;"),
+    ("const:mutable-global-like-local-type", "m_t8 := i32; m_f8 :: (x: m_t8) {};"),
     ("scope:undefined-name", "core.println(m_undefined_name);"),
     ("scope:use-after-block", "{ m_q1 := 1; } core.println(m_q1);"),
     ("scope:undefined-module-member", "core.zzz_no_such();"),
@@ -116,8 +121,9 @@ struct Mutant {
 }
 
 /// one rule-breaking edit of a well-typed program
-fn mutate(rng: &mut Rng, p: &core::Program) -> Mutant {
-    let (kind, snippet) = *rng.pick(CATALOG);
+fn mutate(rng: &mut Rng, p: &core::Program, nth: usize) -> Mutant {
+    // the catalog is walked round-robin so that every snippet occurs in every run; the placement is random
+    let (kind, snippet) = CATALOG[nth % CATALOG.len()];
     let mut placement = *rng.pick(PLACEMENTS);
     // `break` to an unknown label inside a defer is a different error (jump out of a defer) and a
     // syntax error swallows the wrapper's closing brace unpredictably: keep those at top level
@@ -166,14 +172,14 @@ pub fn run(tier: &str, seed: u64, widen: bool) -> Report {
     let mut rep = Report::new(
         "C07",
         "real capy CLI run with --verbose-types local (error diagnostics, unsafe marker, exit status, object/executable written) vs the gate model CapyV.Gate.gate",
-        "seeded well-typed CapyCore programs (generator of C01, no runtime faults) and three mutants of each: one rule-breaking snippet out of a catalog of 36 (19 type, 5 mutability, 3 const, 5 scope, 4 syntax errors) placed in main (top level / if true / while false / block / defer / comptime block / uncalled lambda), in a helper function, in an unused global function or in an uncalled function of an imported file; non-trivial = mutated program; distinct by source text",
+        "seeded well-typed CapyCore programs (generator of C01, no runtime faults) and five mutants of each: one rule-breaking snippet out of a catalog of 41 (19 type, 5 mutability, 8 const, 5 scope, 4 syntax errors) placed in main (top level / if true / while false / block / defer / comptime block / uncalled lambda), in a helper function, in an unused global function or in an uncalled function of an imported file; non-trivial = mutated program; distinct by source text",
     );
     if !crate::e2e::available() {
         rep.notes.push("capy CLI binary missing".into());
         return rep;
     }
     let mut rng = Rng::new(seed);
-    let n = if widen { 400 } else if tier == "thorough" { 200 } else { 30 };
+    let n = if widen { 400 } else if tier == "thorough" { 200 } else { 36 };
     let cfg = GenCfg { faults: false, ..GenCfg::default() };
     let mut cases: Vec<(String, &'static str)> = vec![];
     let mut placements: Vec<&'static str> = vec![];
@@ -187,8 +193,8 @@ pub fn run(tier: &str, seed: u64, widen: bool) -> Report {
         placements.push("-");
         extras.push(vec![]);
         // several mutants per base program: the catalog x placement space is what matters here
-        for _ in 0..3 {
-            let m = mutate(&mut rng, &p);
+        for _ in 0..5 {
+            let m = mutate(&mut rng, &p, placements.len());
             cases.push((m.source, m.kind));
             placements.push(m.placement);
             extras.push(m.extra);
